@@ -248,3 +248,38 @@ func VerifH_C10_ConfiguredUpstreamReached() {
 		verifrt.Assert(u.closed >= 1, "every constructed transport is closed by closing the router")
 	}
 }
+
+// VerifH_C10_QueryNameCase: rules see the LOWER-CASED query name: through the whole request handler, a query whose
+// one-label name is an arbitrary octet c (so also an upper-case letter) against rule 0 = `domain:<l>` → upstream 1 (l a
+// lower-case letter or digit), rule 1 = catch-all → upstream 2: the query is forwarded exactly once, to upstream 1 iff
+// lower(c) == l, the forwarded question is the lower-cased name.
+func VerifH_C10_QueryNameCase() {
+	verifrt.Unwind(80)
+	verifrt.CtxNoExpiry = true
+	ups := []*vUpstream{{tag: "u1"}, {tag: "u2"}}
+	uws := []*upstreamWrapper{{tag: "u1", u: ups[0]}, {tag: "u2", u: ups[1]}}
+	l := verifrt.Byte("l")
+	verifrt.Assume((l >= 'a' && l <= 'z') || (l >= '0' && l <= '9'))
+	m0 := domainmatcher.NewMixMatcher()
+	verifrt.Assume(m0.Add(append([]byte("domain:"), l)) == nil)
+	r := vRouter([]*rule{{matcher: m0, upstream: uws[0]}, {upstream: uws[1]}}, false)
+	c := verifrt.Byte("c")
+	m := dnsmsg.NewMsg()
+	m.Header.ID, m.Header.RecursionDesired = 7, true
+	q := dnsmsg.NewQuestion()
+	q.Name, q.Type, q.Class = dnsmsg.Name([]byte{1, c}), 1, 1
+	m.Questions = append(m.Questions, q)
+	rc := getRequestContext()
+	r.handleServerReq(m, rc)
+	verifrt.Reach("handled")
+	lower := byte(verifrt.Ite('A' <= c && c <= 'Z', int(c)+32, int(c)))
+	want := 1
+	if lower == l {
+		want = 0
+		verifrt.Reach("matched")
+	}
+	verifrt.Assert(ups[want].calls == 1 && ups[1-want].calls == 0, "the first rule whose condition holds for the case-folded name decides; exactly one exchange, on its upstream")
+	name, _, _, _, _, _, _, _, _, ok := refDecodeQuery(ups[want].lastQ)
+	verifrt.Assert(ok && len(name) == 2 && name[1] == lower, "the upstream is asked the lower-cased name")
+	verifrt.Assert(rc.Response.Msg != nil, "one response")
+}
